@@ -422,7 +422,7 @@ Proof.
       destruct rr.
       * inversion E; subst. split; [exact S01 | split; [exact G|]].
         intros x' me mv k' EL'. rewrite EL in EL'. inversion EL'; subst. apply Qp. reflexivity.
-      * assert (S02 : St P w0 H (note B_HostDone (drop_cmd DF cid H1))).
+      * assert (S02 : St P w0 H (note B_HostDone (drop_cmd (dfuel H1) cid H1))).
         { eapply St_trans; [exact S01|]. eapply St_trans; [apply St_drop_cmd | apply St_note]. }
         rec_poll IHp P w0 Pc Lc O S02 I E.
       * assert (S02 : St P w0 H (push_eff c (map_eff meff e) H1)) by (eapply St_trans; [exact S01 | apply St_push_eff]).
